@@ -709,6 +709,17 @@ class JacobianAssembly:
         self.compute_sizes(
             functions, variables, sorted_couplings_minimal, residual_variables
         )
+        if not couplings_and_res:
+            # No coupling links the variables to the functions:
+            # the total derivatives are the partial ones.
+            return self.split_jac(
+                {
+                    function: self.assemble_jacobian([function], variables).toarray()
+                    for function in functions
+                },
+                variables,
+            )
+
         n_variables = self.compute_dimension(variables)
         n_functions = self.compute_dimension(functions)
         n_residuals = self.compute_dimension(sorted_couplings_minimal)
